@@ -55,6 +55,19 @@ impl Default for MoveGenerator {
     }
 }
 
+#[cfg(chess_verif)]
+impl MoveGenerator {
+    /// Verification hook: the same generator with a smaller move cache, so that creating
+    /// one per position is affordable (`new()` sizes the cache for 10^8 entries).
+    pub fn with_cache_capacity(capacity: usize) -> Self {
+        Self {
+            targets: Targets::default(),
+            cache: LruCache::new(NonZeroUsize::new(capacity.max(1)).unwrap()),
+            hit_count: 0,
+        }
+    }
+}
+
 impl MoveGenerator {
     pub fn new() -> Self {
         Self::default()
